@@ -262,7 +262,7 @@ partial def parseAgg (fields : Json) (j : Json) : Except String (Agg String Stri
       | none => 0
     let missing : Option Int := ((optStr j "missing").bind parseDate).map truncToInt
     return .bucket (.dhist (← getStr j "field") iv offset ((optNat j "min_doc_count").getD 0)
-      (parseDateBounds j "extended_bounds") (parseDateBounds j "hard_bounds") missing false) subs
+      (parseDateBounds j "extended_bounds") (parseDateBounds j "hard_bounds") missing) subs
   | "top_hits" =>
     let sorts := getArrD j "sort"
     let sort ← sorts.toList.mapM (fun sp => do
